@@ -43,6 +43,8 @@ func (s *state) clone() *state {
 }
 
 type smtctx struct {
+	cardPairs bool // translating a decreases clause: relate the cardinalities of the maps it mentions
+	cardTerms map[string][][2]string
 	w             *world
 	declaredSorts map[string]bool
 	sortDecls     []string
